@@ -201,6 +201,8 @@ def update_guard(ctx, prop_prefix):
             writes.append((bi, "O"))
             continue
         e = strip_casts(run.expr_of_rvalue(s["rv"]))
+        while e[0] == "un" and e[1] == "Not" and strip_casts(e[2])[0] == "un" and strip_casts(e[2])[1] == "Not":
+            e = strip_casts(strip_casts(e[2])[2])          # `!finished` with `finished = !sort_result`
         if e[0] == "const" and e[1] in (0, 1, True, False):
             writes.append((bi, "T" if e[1] else "F"))
         elif e[0] == "call" and len(e) > 4 and e[4] == q_id:
